@@ -88,9 +88,9 @@ def _call(pendulum, x, op, unit, wd, nth, keep_time):
     worker.horizon(0.5)
     try:
         if op == "next":
-            r = x.next(w, keep_time=True) if keep_time else x.next(w)
+            r = x.next(w, keep_time=(True if x.day % 2 else 1)) if keep_time else x.next(w)
         elif op == "previous":
-            r = x.previous(w, keep_time=True) if keep_time else x.previous(w)
+            r = x.previous(w, keep_time=(True if x.day % 2 else 1)) if keep_time else (x.previous(w, keep_time=0) if (x.day % 2 == 0 and isinstance(x, pendulum.DateTime)) else x.previous(w))
         elif op == "first_of":
             r = x.first_of(unit, w)
         elif op == "last_of":
